@@ -80,7 +80,10 @@ static bool structurally_sound(const TT& t, std::string& why) {
   return true;
 }
 static volatile double g_sink;
-struct Real { std::unique_ptr<TT> o[2]; Real() { o[0].reset(new TT); o[1].reset(new TT); } };
+// the two objects draw from two different arenas of the stateful tracking allocator: storage that changes hands (move
+// construction / assignment) must take its allocator along
+static TT* fresh(int slot) { return new TT(ta::TrackAlloc<void>(slot + 1)); }
+struct Real { std::unique_ptr<TT> o[2]; Real() { o[0].reset(fresh(0)); o[1].reset(fresh(1)); } };
 
 static void do_fit(TT& t, bool valid) {
   uint32_t order = 2; size_t nb = 6; std::vector<double> knots; for (size_t i = 0; i < nb + order + 1; i++) knots.push_back((double)i);
@@ -116,7 +119,7 @@ static bool real_step(Real& r, const Op& op, std::string& msg) {
       case O_WRITE_MEM: { auto b = s.write_fits_mem(); TT u; u.read_fits_mem(b.first, b.second); bool same = (u == s) && digest(u) == digest(s); free(b.first); if (!same) throw std::logic_error("HARNESS: re-read of write_fits_mem differs"); break; }
       case O_WRITE_BADPATH: s.write_fits("no/such/directory/x.fits"); break;
       case O_EVAL: { std::vector<double> x(s.get_ndim()); std::vector<int> c(s.get_ndim()); for (uint32_t i = 0; i < s.get_ndim(); i++) x[i] = s.get_knot(i, s.get_order(i)) + 0.3 * (s.get_knot(i, s.get_order(i) + 1) - s.get_knot(i, s.get_order(i))); if (s.searchcenters(x.data(), c.data())) { g_sink = s.ndsplineeval(x.data(), c.data(), 0); g_sink = s.ndsplineeval(x.data(), c.data(), 1); std::vector<double> g(s.get_ndim() + 1); s.ndsplineeval_gradient(x.data(), c.data(), g.data()); } g_sink = s(x.data()); break; }
-      case O_RECREATE: r.o[op.obj].reset(); r.o[op.obj].reset(new TT); break;
+      case O_RECREATE: r.o[op.obj].reset(); r.o[op.obj].reset(fresh(op.obj)); break;
     }
   } catch (std::bad_alloc&) { msg = "std::bad_alloc"; return true; }
   catch (std::exception& e) { msg = e.what(); return true; }
@@ -158,7 +161,7 @@ static bool replay(const std::vector<int>& path, Real& r, World& w) {
 static void suffix_battery(Real& r, const std::string& where, const std::string& okey) {   // whatever state the objects are in, they must be usable and destructible
   for (int i = 0; i < 2; i++) {
     TT& t = *r.o[i]; std::string why;
-    if (!structurally_sound(t, why)) { H->violation("object-structurally-unsound-after-failure:" + okey, where + ": " + why); r.o[i].release(); r.o[i].reset(new TT); continue; }
+    if (!structurally_sound(t, why)) { H->violation("object-structurally-unsound-after-failure:" + okey, where + ": " + why); r.o[i].release(); r.o[i].reset(fresh(i)); continue; }
     std::string m; if (t.get_ndim()) { real_step(r, Op{O_EVAL, i}, m); real_step(r, Op{O_WRITE_MEM, i}, m); if (m.find("HARNESS") != std::string::npos) H->violation("object-does-not-reserialise-after-failure:" + okey, where); }
   }
   std::string m; real_step(r, Op{O_MOVE_CONSTRUCT, 0}, m); real_step(r, Op{O_COMPARE, 0}, m);
@@ -222,7 +225,7 @@ int main(int argc, char** argv) {
   vf::Harness h("C20", argc, argv);
   H = &h;
   h.meta("level", "model_checking");
-  h.meta("rule", "breadth-first search over operation histories on two real splinetable<TrackAlloc> objects: read_fits_mem of two valid files and a corrupt one, read_fits of a missing file, valid and invalid fit, write_key (two keys, one reserved), remove_key, convolve (<=2 per object), valid and invalid permutation, move construction, move assignment, self assignment, == / !=, write_fits_mem, write_fits to an unwritable path, evaluation, destroy+recreate; state = pair of abstract object states (EMPTY or base table x convolutions x permutation flag, plus the ordered key list), deduplicated, explored to a depth bound with every transition replaying its shortest history on fresh objects; a symbolic reference model predicts for every step whether it must throw and the resulting abstract state; after every step: structural soundness, populated/empty, key store, equality operators, route independence of the contents of an abstract state, allocator ledger (every block returned once with its size and type) and, after destroying both objects, an empty ledger; for every non-failing transition additionally the k-th allocation of the operation is made to fail for every k: the object must be unchanged or empty, the other object untouched, and a suffix battery (evaluate, re-serialise, move, compare, destroy) must be clean with a balanced ledger");
+  h.meta("rule", "breadth-first search over operation histories on two real splinetable<TrackAlloc> objects: read_fits_mem of two valid files and a corrupt one, read_fits of a missing file, valid and invalid fit, write_key (two keys, one reserved), remove_key, convolve (<=2 per object), valid and invalid permutation, move construction, move assignment, self assignment, == / !=, write_fits_mem, write_fits to an unwritable path, evaluation, destroy+recreate; state = pair of abstract object states (EMPTY or base table x convolutions x permutation flag, plus the ordered key list), deduplicated, explored to a depth bound with every transition replaying its shortest history on fresh objects; a symbolic reference model predicts for every step whether it must throw and the resulting abstract state; after every step: structural soundness, populated/empty, key store, equality operators, route independence of the contents of an abstract state, allocator ledger (the two objects use different arenas of a stateful allocator; every block returned once, with its size and type, through an allocator instance of the arena it came from) and, after destroying both objects, an empty ledger; for every non-failing transition additionally the k-th allocation of the operation is made to fail for every k: the object must be unchanged or empty, the other object untouched, and a suffix battery (evaluate, re-serialise, move, compare, destroy) must be clean with a balanced ledger");
   h.meta("assumption", "move assignment is implemented as a swap; the model accepts that the source then holds the target's former contents (nothing is leaked) rather than being empty");
   h.meta("assumption", "allocation faults are injected through the allocator template parameter only (scratch memory obtained with new/malloc inside the library is not failed)");
   h.meta("require_states", "50"); h.meta("require_allocation_fault_runs", "200");
